@@ -534,16 +534,23 @@ def _batch_contains_tl(case):
 PREDICATES = {"batch_contains_thread_local": _batch_contains_tl}
 
 
-def match_known(known, suite, case, oracle):
+def match_known(known, suite, case, oracle, level=""):
+    """a finding is attributed to a listed known finding only if the case is of its class AND
+       either the failing oracle is one of those that observe the finding itself (match.direct), or the run shows the
+       finding's downstream symptom (match.symptom: "+bp" = a real borrow panic happened in this run)"""
     for k in known:
         if "fixed" in k:
             continue
         m = k.get("match", {})
         if suite not in m.get("suites", [suite]):
             continue
-        if m.get("oracles") and oracle not in m["oracles"] and oracle.split(":")[0] not in m["oracles"]:
-            continue
         pred = PREDICATES.get(m.get("predicate", ""))
-        if pred and pred(case):
+        if not (pred and pred(case)):
+            continue
+        base = oracle.split(":")[0]
+        if base in m.get("direct", []) or oracle in m.get("direct", []):
+            return k
+        sym = m.get("symptom")
+        if sym and sym in (level or ""):
             return k
     return None
